@@ -127,6 +127,13 @@ def judge(prog: Program, ref: Any, run: dict[str, Any], info: dict[str, Any]) ->
             for k_ in SCALAR_KEYS:
                 if ctx.get(k_) is not None:
                     held.setdefault((e["stage_id"], k_), []).append((int(e.get("arm") or 0), ctx.get(k_)))
+            # ancestors that had not finished when this stage started (possible behind an OR-split skip or a first-of
+            # join: the stage's direct upstream is done, a transitive one still runs): whether their outputs are in
+            # by the time a task looks is a race - they are left out of every expectation below
+            cs_ = [c for c in claims.get(e["stage_id"], []) if c <= e["audit_seq"]]
+            plan_ = max(cs_) if cs_ else e["audit_seq"]
+            late = {a for a in anc if h.stage_status_at(h.ref_to_id.get(a, ""), plan_ + 1) not in
+                    ("SUCCEEDED", "FAILED_CONTINUE", "SKIPPED", "TERMINAL", "CANCELED", "STOPPED")}
             own = prog.stages[sref].get("ctx") or {}
             # re-arm clears outputs: only producers that completed since the last re-arm of *their* stage count
             for k in SCALAR_KEYS:
@@ -144,7 +151,7 @@ def judge(prog: Program, ref: Any, run: dict[str, Any], info: dict[str, Any]) ->
                 if P not in anc and P != sref:
                     problems.append(("foreign-output-visible", f"{e['key']} sees {k}={v!r} produced by {P}, which is not an ancestor of {sref}", "non-ancestor"))
                     continue
-                if P == sref:
+                if P == sref or P in late:
                     continue
                 # current iteration: the producer's latest producing execution so far
                 cur, cleared = producer_state(e, P, pidx)   # a stage's view is fixed when it starts; iterations are per producing task
@@ -159,7 +166,7 @@ def judge(prog: Program, ref: Any, run: dict[str, Any], info: dict[str, Any]) ->
                                      + (" (the stage was started before: value carried over in its own context)" if baked else ""),
                                      "stale-iteration:" + ("baked" if baked else "fresh")))
                 # nearest ancestor wins on path-ordered keys
-                producers = [a for a in anc if k in prod_specs.get(a, {}) and any(produces_at(e, a, i, k) for i in prod_specs[a][k])]
+                producers = [a for a in anc if a not in late and k in prod_specs.get(a, {}) and any(produces_at(e, a, i, k) for i in prod_specs[a][k])]
                 maximal = [a for a in producers if not any(a in prog.ancestors(b) for b in producers if b != a)]
                 if maximal and P not in maximal and not ((cur >= 0 and it < cur) or (cleared and it <= cur)):   # a stale value is reported as such above
                     # the same "baked" defect in another guise: the stage held exactly this value in an earlier run of
@@ -173,7 +180,7 @@ def judge(prog: Program, ref: Any, run: dict[str, Any], info: dict[str, Any]) ->
                     else:
                         problems.append(("farther-ancestor-wins", f"{e['key']} sees {k} from {P} although nearer producer(s) {sorted(maximal)} exist", "not-nearest"))
             # every key produced by a completed ancestor is present
-            for a in sorted(anc):
+            for a in sorted(anc - late):
                 for k, idxs in prod_specs.get(a, {}).items():
                     if k in own:
                         continue
@@ -188,7 +195,7 @@ def judge(prog: Program, ref: Any, run: dict[str, Any], info: dict[str, Any]) ->
                     if p and p[0] not in anc and p[0] != sref:
                         problems.append(("foreign-output-visible", f"{e['key']} sees list item {v!r} of non-ancestor {p[0]}", "non-ancestor-list"))
                 want = set()
-                for a in anc:
+                for a in anc - late:
                     # inside one stage a later task's value replaces an earlier task's (outputs.update): the
                     # stage contributes the value of its last completed producer of the key
                     done = [(i, latest_at_plan(e, a, i)) for i in prod_specs.get(a, {}).get(k, []) if produces_at(e, a, i, k)]
